@@ -27,7 +27,8 @@ def _submit(eng, args, kw, st, fr, k, node):
                z3.BoolVal(len(extra) == len(env["args"]) and all(x is y for x, y in zip(extra, env["args"]))), node)
     eng.oblige("submit", "and the caller's keyword arguments without the bookkeeping keywords, with the per-run progress bar defaulting to off", st,
                z3.BoolVal("add_run_id_field" not in kw and "run_id_as_bytes" not in kw and "progress_bar" in kw
-                          and all(kw.get(key) is val for key, val in env["#entry_kwargs"].items())), node)
+                          and all(kw.get(key) is val for key, val in env["#entry_kwargs"].items()
+                                  if key not in ("add_run_id_field", "run_id_as_bytes"))), node)
     fut = eng.fresh("future", "V")
     g = dict(st.ghost)
     g["n_submitted"] = g["n_submitted"] + 1
@@ -55,10 +56,29 @@ def _np_array(eng, args, kw, st, fr, k, node):
         want = rep(eng.to_v(st.env["_run_id"]), z3.Function("len", V, z3.IntSort())(RESULT(st.env["f"].t)))
         eng.oblige("pairing", "the run-id column holds the run id of the finished future, once per result row", st,
                    eng.to_v(args[0]) == want, node)
+        dt = kw["dtype"]
+        dt_ok = (isinstance(dt, list) and len(dt) == 1 and isinstance(dt[0], tuple) and len(dt[0]) == 2 and dt[0][0] == "run_id")
+        eng.oblige("pairing", "the run-id column has the type of the run-id array as it was finally cast (bytes when run_id_as_bytes asks "
+                              "for it) - not the type the array had before the cast", st,
+                   eng.to_v(dt[0][1]) == z3.Function("attr_dtype", V, V)(eng.to_v(st.env["run_id_numpy"])) if dt_ok else z3.BoolVal(False), node)
         g = dict(st.ghost)
         g["ids"] = eng.fresh("ids", "V")
         return k(Opq(g["ids"]), St(st.env, st.heap, st.pc, g))
+    if len(args) == 1 and not kw and args[0] is st.env.get("run_ids"):
+        # run_id_numpy = np.array(run_ids): every requested run id, in the order given, duplicates included
+        return k(Opq(ARRAY_OF(eng.to_v(args[0]))), st)
     return k(Opq(eng.fresh("array", "V")), st)
+
+
+ARRAY_OF = z3.Function("fn:np.array", V, V)
+SORTED = z3.Function("fn:stable_sort", V, V)
+
+
+def _stable_sort(eng, args, kw, st, fr, k, node):
+    eng.oblige("scheduling", "the list the runs are scheduled from holds every requested run id (duplicates included), sorted: "
+                             "stable_sort of np.array(run_ids)", st, eng.to_v(args[0]) == ARRAY_OF(eng.to_v(st.env["run_ids"])), node)
+    r = SORTED(eng.to_v(args[0]))
+    return k(Opq(r), St(st.env, st.heap, st.pc, {**st.ghost, "sorted_ids": r}))
 
 
 def _merge_arrs(eng, args, kw, st, fr, k, node):
@@ -106,6 +126,9 @@ def _islice(eng, args, kw, st, fr, k, node):
     """itertools.islice(run_id_numpy, lo, hi): which runs are scheduled next"""
     env = st.env
     eng.oblige("scheduling", "runs are scheduled from the sorted list of run ids", st, z3.BoolVal(args[0] is env.get("run_id_numpy")), node)
+    eng.oblige("scheduling", "that list is the sorted array of ALL requested run ids, or its cast to bytes", st,
+               z3.Or(eng.to_v(args[0]) == st.ghost["sorted_ids"],
+                     eng.to_v(args[0]) == z3.Function("method:astype", V, V, V)(st.ghost["sorted_ids"], eng.to_v("S"))), node)
     if "futures_done" in env:
         n_done = z3.Function("len", V, z3.IntSort())(eng.to_v(env["futures_done"]))
         eng.oblige("scheduling", "after a round, as many further runs are scheduled as futures finished in it - failed and ignored ones "
@@ -150,11 +173,12 @@ multi_run = REG.add(Contract(
     raises={"Any": lambda S, a: S.Not(a.ignore_errors)},
     ghost={"n_submitted": z3.IntVal(0), "n_results": z3.IntVal(0), "n_ids": z3.IntVal(0), "sorted": z3.BoolVal(False),
            "last_submitted": z3.Const("no_future_submitted", V), "last_filed": z3.Const("no_future_filed", V), "ti_at_wait": z3.IntVal(0),
-           "round_handled": z3.BoolVal(False),
+           "round_handled": z3.BoolVal(False), "sorted_ids": z3.Const("no_sorted_ids", V),
            "ids": z3.Const("no_ids", V), "merged": z3.Const("nothing_merged", V), "last_result_of": z3.Const("no_future", V)},
     calls={"exc.submit": _submit, "futures.pop": _futures_pop, "np.array": _np_array, "merge_arrs": _merge_arrs,
            "final_result.append": _append_result, "run_id_output.append": _append_id, "stable_argsort": _argsort,
-           "stable_sort": Abstract(pure=True), "np.any": Abstract(sort="bool"), "warn": Abstract(sort=None), "tqdm": Abstract(),
+           "stable_sort": _stable_sort, "np.unique": Abstract(pure=True), "np.sort": Abstract(pure=True), "sorted": Abstract(pure=True),
+           "set": Abstract(pure=True), "np.any": Abstract(sort="bool"), "warn": Abstract(sort=None), "tqdm": Abstract(),
            "ThreadPoolExecutor": Abstract(), "itertools.islice": _islice, "wait": _wait,
            "logging.getLogger": Abstract(), "failures.append": Abstract(sort=None),
            "log.debug": Abstract(sort=None), "log.warning": Abstract(sort=None), "pbar.update": Abstract(sort=None), "pbar.close": Abstract(sort=None)},
@@ -174,3 +198,11 @@ multi_run = REG.add(Contract(
 ))
 from pyvc.library import plain_with  # noqa: E402
 multi_run.with_handler = plain_with
+
+# the same contract for a call that passes the bookkeeping keywords (run_id_as_bytes / add_run_id_field): the branch that casts the
+# run ids to bytes is only reachable then
+import copy as _copy  # noqa: E402
+multi_run_bytes = _copy.copy(multi_run)
+multi_run_bytes.variant = "run_id_as_bytes / add_run_id_field given"
+multi_run_bytes.params = dict(multi_run.params, kwargs={"some_kw": "V", "run_id_as_bytes": "bool", "add_run_id_field": "bool"})
+REG.add(multi_run_bytes)
